@@ -154,6 +154,96 @@ pub struct Tamper {
     pub alert_on_msg: Option<u8>,
     /// Emit garbage instead of handshake message with this tag
     pub garbage_msg: Option<u8>,
+    /// Edits applied to individual parameters of the encoded transport parameters this side
+    /// presents (after `tp_replace`, before `tp_append`)
+    pub tp_edits: Vec<TpEdit>,
+    /// Number of sessions whose presented transport parameters differ from the genuine ones
+    pub applied: Arc<AtomicU64>,
+}
+
+/// One edit of the encoded transport parameters (sequence of id / length / value)
+#[derive(Clone, Debug, PartialEq, serde::Serialize, serde::Deserialize)]
+pub struct TpEdit {
+    /// transport parameter id
+    pub id: u64,
+    pub op: TpOp,
+}
+
+#[derive(Clone, Debug, PartialEq, serde::Serialize, serde::Deserialize)]
+pub enum TpOp {
+    /// flip one bit of the value (no-op when the parameter is absent or empty)
+    Flip { byte: u8, bit: u8 },
+    /// remove the parameter
+    Drop,
+    /// replace the value by the value of parameter `from` (no-op when either is absent)
+    CopyFrom { from: u64 },
+    /// exchange the values of this parameter and parameter `with` (no-op when either is absent)
+    Swap { with: u64 },
+    /// append the parameter with this value when it is absent (no-op when present)
+    AddIfAbsent { value: Vec<u8> },
+    /// drop the last byte of the value
+    Shorten,
+    /// append a byte to the value
+    Lengthen { byte: u8 },
+}
+
+/// Parse encoded transport parameters into (id, value) pairs; None when malformed
+pub fn tp_split(b: &[u8]) -> Option<Vec<(u64, Vec<u8>)>> {
+    let mut r = crate::wire::Rd::new(b);
+    let mut out = vec![];
+    while r.remaining() > 0 {
+        let id = r.var().ok()?;
+        let v = r.var_bytes().ok()?.to_vec();
+        out.push((id, v));
+    }
+    Some(out)
+}
+
+pub fn tp_join(p: &[(u64, Vec<u8>)]) -> Vec<u8> {
+    let mut out = vec![];
+    for (id, v) in p {
+        crate::wire::put_var(&mut out, *id);
+        crate::wire::put_var(&mut out, v.len() as u64);
+        out.extend_from_slice(v);
+    }
+    out
+}
+
+pub fn tp_apply_edits(b: &[u8], edits: &[TpEdit]) -> Vec<u8> {
+    let Some(mut p) = tp_split(b) else { return b.to_vec() };
+    for e in edits {
+        let pos = p.iter().position(|(id, _)| *id == e.id);
+        match (&e.op, pos) {
+            (TpOp::Flip { byte, bit }, Some(i)) => {
+                let n = p[i].1.len();
+                if n > 0 {
+                    p[i].1[*byte as usize % n] ^= 1 << (bit & 7);
+                }
+            }
+            (TpOp::Drop, Some(i)) => {
+                p.remove(i);
+            }
+            (TpOp::CopyFrom { from }, Some(i)) => {
+                if let Some(j) = p.iter().position(|(id, _)| id == from) {
+                    p[i].1 = p[j].1.clone();
+                }
+            }
+            (TpOp::Swap { with }, Some(i)) => {
+                if let Some(j) = p.iter().position(|(id, _)| id == with) {
+                    let t = p[i].1.clone();
+                    p[i].1 = p[j].1.clone();
+                    p[j].1 = t;
+                }
+            }
+            (TpOp::AddIfAbsent { value }, None) => p.push((e.id, value.clone())),
+            (TpOp::Shorten, Some(i)) => {
+                p[i].1.pop();
+            }
+            (TpOp::Lengthen { byte }, Some(i)) => p[i].1.push(*byte),
+            _ => {}
+        }
+    }
+    tp_join(&p)
 }
 
 pub struct SimClientConfig {
@@ -225,11 +315,18 @@ fn tp_bytes(p: &TransportParameters) -> Vec<u8> {
 }
 
 fn present_tp(p: &TransportParameters, t: &Tamper) -> Vec<u8> {
+    let genuine = tp_bytes(p);
     let mut v = match &t.tp_replace {
         Some(r) => r.clone(),
-        None => tp_bytes(p),
+        None => genuine.clone(),
     };
+    if !t.tp_edits.is_empty() {
+        v = tp_apply_edits(&v, &t.tp_edits);
+    }
     v.extend_from_slice(&t.tp_append);
+    if v != genuine {
+        t.applied.fetch_add(1, Ordering::Relaxed);
+    }
     v
 }
 
